@@ -324,6 +324,7 @@ pub fn generate(seed: u64, stream: &str, index: u64, cfg: &GenCfg) -> SysSpec {
         spec.states.push(StateSpec { ty: *t, init, next });
     }
     // sharing patterns on the last bit-vector state
+    let mut lock_bads = false;
     let last = tys.iter().rposition(|t| matches!(t, Ty::BV(_)));
     if let Some(li) = last {
         let t = tys[li];
@@ -333,7 +334,35 @@ pub fn generate(seed: u64, stream: &str, index: u64, cfg: &GenCfg) -> SysSpec {
                 let shared = random_expr(&mut rng, t, 2, &earlier, false, cfg.max_width);
                 let shared = if matches!(shared, Sh::Op(..)) { shared } else { Sh::Op(Op::Add, [0, 0], vec![adapt(Sh::Sym(earlier[0].0, earlier[0].1), t.bv().unwrap()), Sh::Lit(t.bv().unwrap(), BigUint::from(1u32))]) };
                 spec.states[li].init = Some(shared.clone());
-                spec.states[li].next = Some(if rng.chance(1, 2) { shared } else { Sh::Op(Op::Xor, [0, 0], vec![shared, Sh::Sym(STATE_BASE + li as u8, t)]) });
+                if rng.chance(1, 2) {
+                    // next is the very same node as init: the state is a one-step delayed copy of an
+                    // expression over a counter; observe a value it only takes at depth >= 2
+                    let (ci, ct) = earlier[0];
+                    let cw = ct.bv().unwrap();
+                    let c = (ci - STATE_BASE) as usize;
+                    spec.states[c].init = Some(Sh::Lit(cw, BigUint::from(0u32)));
+                    spec.states[c].next = Some(Sh::Op(Op::Add, [0, 0], vec![Sh::Sym(ci, ct), Sh::Lit(cw, BigUint::from(1u32))]));
+                    let w = t.bv().unwrap();
+                    let shared = Sh::Op(Op::Add, [0, 0], vec![adapt(Sh::Sym(ci, ct), w), Sh::Lit(w, BigUint::from(1u32))]);
+                    spec.states[li].init = Some(shared.clone());
+                    spec.states[li].next = Some(shared);
+                    if w >= 2 && cw >= 2 {
+                        // the delay must be what decides reachability: no other bad states or constraints
+                        lock_bads = true;
+                        let sv = Sh::Sym(STATE_BASE + li as u8, t);
+                        if rng.chance(1, 2) {
+                            // reachable at depth 3 only through the delayed copy
+                            spec.bads.push(Sh::Op(Op::Equal, [0, 0], vec![sv, Sh::Lit(w, BigUint::from(3u32))]));
+                        } else {
+                            // unreachable: the copy equals 1 only while the counter is below 2
+                            let a = Sh::Op(Op::Equal, [0, 0], vec![sv, Sh::Lit(w, BigUint::from(1u32))]);
+                            let b = Sh::Op(Op::Equal, [0, 0], vec![Sh::Sym(ci, ct), Sh::Lit(cw, BigUint::from(3u32))]);
+                            spec.bads.push(Sh::Op(Op::And, [0, 0], vec![a, b]));
+                        }
+                    }
+                } else {
+                    spec.states[li].next = Some(Sh::Op(Op::Xor, [0, 0], vec![shared, Sh::Sym(STATE_BASE + li as u8, t)]));
+                }
             }
             "share-init-bad" if !earlier.is_empty() => {
                 let shared = Sh::Op(Op::Add, [0, 0], vec![adapt(Sh::Sym(earlier[0].0, earlier[0].1), t.bv().unwrap()), Sh::Lit(t.bv().unwrap(), BigUint::from(1u32))]);
@@ -359,7 +388,7 @@ pub fn generate(seed: u64, stream: &str, index: u64, cfg: &GenCfg) -> SysSpec {
         "several-bads+constraints" => 2 + rng.below(2),
         _ => 1 + rng.below(2),
     };
-    while spec.bads.len() < n_bads {
+    while spec.bads.len() < n_bads && !lock_bads {
         let b = if rng.chance(1, 2) && !st_sigs.is_empty() {
             // state == literal
             let bv: Vec<&(u8, Ty)> = st_sigs.iter().filter(|s| matches!(s.1, Ty::BV(_))).collect();
@@ -381,7 +410,7 @@ pub fn generate(seed: u64, stream: &str, index: u64, cfg: &GenCfg) -> SysSpec {
             }
         }
     };
-    for _ in 0..n_cons {
+    for _ in 0..(if lock_bads { 0 } else { n_cons }) {
         // constraints mostly over inputs so that they stay satisfiable
         let c = if !in_sigs.is_empty() && rng.chance(3, 4) {
             let s = in_sigs[rng.below(in_sigs.len())];
